@@ -301,6 +301,7 @@ int main(int argc, char **argv) {
   };
   if (one) {
     Cell cell; cell.sigma = one_sigma; cell.L = one_L; cell.stretch = one_stretch; cell.pal = pal_by_name(one_pal);
+    if (!one_strings.empty() && one_strings[0] == '@') { std::ifstream sf(one_strings.substr(1)); std::stringstream ss; ss << sf.rdbuf(); one_strings = ss.str(); while (!one_strings.empty() && (one_strings.back() == '\n' || one_strings.back() == ' ')) one_strings.pop_back(); }
     for (auto &h : split(one_strings, ',')) if (!h.empty()) cell.S.push_back(unhex(h));
     std::sort(cell.S.begin(), cell.S.end(), ult);
     cell.Q = query_universe(PALETTES[cell.pal], one_sigma, one_L, one_stretch, 2);
